@@ -19,6 +19,13 @@ CLAIMS = {
     "C14": dict(engine="direct",
                 text="Held on N random item lists converted by all 25 map instantiations; success, entries, leaf count and per-item leaf attribution compared with a model (re-implemented key conversion, differential value acceptance); Hash/BTree agreement per input.",
                 note="Value acceptance is taken from V::from_meta on the same item (C11/C13 decide those conversions)."),
+    "C12": dict(engine="direct",
+                text="Held on 1430 wrapper types (10 wrappers, all 100 two-level compositions, 13 inner targets) x N random meta items: each outcome compared with a compositional model applied to the inner type's own outcome on the same item; SpannedValue range, WithOriginal copy, from_none, Flag and IdentString checked.",
+                note="Differential: the inner type's observed outcome is the reference.",
+                technique="runtime monitoring: differential execution (wrapper vs wrapped conversion on the same input) with a compositional model"),
+    "C15": dict(engine="direct",
+                text="Routing: exhaustive table of 128 probe implementers x 65 item forms x 3 hook return modes against a routing model. Splitting: N random nested lists whose item split is known by construction, print/parse identity, and single-token mutations judged by an independent token-tree recogniser.",
+                note="Expression validity is delegated to syn::parse2::<Expr>; keyword item names other than crate/self/super are not generated."),
 }
 
 PENDING = {}
